@@ -493,26 +493,103 @@ def _in_convex_polygon(pt, poly):
     return True
 
 
+def _fold_table(prog, f, node):
+    """a module-level constant (tuple/list of rows) -> python value with exact numbers, via the evaluator's constant folding"""
+    from lcsa.sym import Evaluator, _Frame
+    g = prog.resolve_global(f.mod, node)
+    if not g:
+        return None
+    try:
+        v = Evaluator(prog).global_value(g, _Frame(f, 0), node)
+    except Undecided:
+        return None
+    return v
+
+
+def _num(x):
+    from lcsa.alg import Rat as _R
+    if isinstance(x, _R) and x.is_const():
+        return x.const_value()
+    if isinstance(x, (int, Fraction)) and not isinstance(x, bool):
+        return Fraction(x)
+    return None
+
+
 def _polygons(ck, prog):
     f = prog.fn(PLT, "finalize_DasPappu")
     construct = f.mod.relpath + ":" + f.qual
-    fills = []
+    fills = []          # (handle name, [(x, y)], node, legend text or None)
+    table_texts = None
     for s in f.body():
         if isinstance(s, ast.Assign) and isinstance(s.value, ast.Call) and unparse(s.value.func) == "plt.fill":
             xs, ys = s.value.args[0], s.value.args[1]
-            if not (isinstance(xs, ast.List) and isinstance(ys, ast.List) and len(xs.elts) == len(ys.elts)):
-                raise Undecided("plt.fill vertex lists are not literal lists", f.loc(s))
+            ck.shape(isinstance(xs, (ast.List, ast.Tuple)) and isinstance(ys, (ast.List, ast.Tuple)) and len(xs.elts) == len(ys.elts), "plt.fill with literal vertex lists", f.loc(s))
             pts = [(const_number(f.mod, a), const_number(f.mod, b)) for a, b in zip(xs.elts, ys.elts)]
-            if any(p[0] is None or p[1] is None for p in pts):
-                raise Undecided("non-literal polygon vertex", f.loc(s))
+            ck.shape(all(p[0] is not None and p[1] is not None for p in pts), "literal polygon vertices", f.loc(s))
             tgt = s.targets[0]
             name = unparse(tgt.elts[0]) if isinstance(tgt, ast.Tuple) else unparse(tgt)
-            fills.append((name, pts, s))
+            fills.append((name, pts, s, None))
+        elif isinstance(s, ast.For) and any(isinstance(n, ast.Call) and unparse(n.func) == "plt.fill" for n in ast.walk(s)):
+            # table-driven: for (xs, ys, colour, text) in <module-level constant>: handle, = plt.fill(xs, ys, ...); handles.append(handle)
+            rows = _fold_table(prog, f, s.iter) if isinstance(s.iter, (ast.Name, ast.Attribute)) else None
+            ck.shape(isinstance(rows, (list, tuple)) and isinstance(s.target, (ast.Tuple, ast.List)) and all(isinstance(e, ast.Name) for e in s.target.elts)
+                     and all(isinstance(r, (list, tuple)) and len(r) == len(s.target.elts) for r in rows), "region loop over a module-level table of rows", f.loc(s))
+            names = [e.id for e in s.target.elts]
+            calls = [n for n in ast.walk(s) if isinstance(n, ast.Call) and unparse(n.func) == "plt.fill"]
+            ck.shape(len(calls) == 1 and len(calls[0].args) >= 2 and all(isinstance(a, ast.Name) and a.id in names for a in calls[0].args[:2]), "one plt.fill(xs, ys, ...) per row", f.loc(s))
+            ix, iy = names.index(calls[0].args[0].id), names.index(calls[0].args[1].id)
+            for k, r in enumerate(rows):
+                ck.shape(isinstance(r[ix], (list, tuple)) and isinstance(r[iy], (list, tuple)) and len(r[ix]) == len(r[iy]), "row %d: vertex coordinate sequences" % k, f.loc(s))
+                pts = [(_num(a), _num(b)) for a, b in zip(r[ix], r[iy])]
+                ck.shape(all(p[0] is not None and p[1] is not None for p in pts), "row %d: numeric vertices" % k, f.loc(s))
+                text = next((x for x in r if isinstance(x, str) and ":" in x), None)
+                fills.append(("row%d" % k, pts, s, text))
+            table_texts = True
+    if not fills:
+        # a local helper draws one region from a list of named corner points:
+        #   def fill_region(corners, ...): patch, = plt.fill([c[0] for c in corners], [c[1] for c in corners], ...); return patch
+        #   reg1 = fill_region([origin, weak_neg, weak_pos], ...)
+        helpers = [n for n in f.node.body if isinstance(n, ast.FunctionDef) and any(isinstance(c, ast.Call) and unparse(c.func) == "plt.fill" for c in ast.walk(n))]
+        if len(helpers) == 1:
+            h = helpers[0]
+            hp = [a.arg for a in h.args.args]
+            fc = [c for c in ast.walk(h) if isinstance(c, ast.Call) and unparse(c.func) == "plt.fill"]
+
+            def coord_of(a):
+                if isinstance(a, ast.ListComp) and len(a.generators) == 1 and isinstance(a.generators[0].target, ast.Name) and not a.generators[0].ifs \
+                        and isinstance(a.generators[0].iter, ast.Name) and a.generators[0].iter.id in hp and isinstance(a.elt, ast.Subscript) \
+                        and isinstance(a.elt.value, ast.Name) and a.elt.value.id == a.generators[0].target.id and isinstance(a.elt.slice, ast.Constant):
+                    return a.generators[0].iter.id, a.elt.slice.value
+                return None
+            cx = coord_of(fc[0].args[0]) if len(fc) == 1 and len(fc[0].args) >= 2 else None
+            cy = coord_of(fc[0].args[1]) if cx else None
+            ck.shape(cx is not None and cy is not None and cx[0] == cy[0] and (cx[1], cy[1]) == (0, 1), "local region helper: plt.fill([c[0] for c in corners], [c[1] for c in corners])", f.loc(h))
+            consts = {}
+            for st in f.body():
+                if isinstance(st, ast.Assign) and len(st.targets) == 1 and isinstance(st.targets[0], ast.Name) and isinstance(st.value, ast.Tuple) and len(st.value.elts) == 2:
+                    a_, b_ = const_number(f.mod, st.value.elts[0]), const_number(f.mod, st.value.elts[1])
+                    if a_ is not None and b_ is not None:
+                        consts.setdefault(st.targets[0].id, []).append((a_, b_))
+            for st in f.body():
+                if isinstance(st, ast.Assign) and isinstance(st.value, ast.Call) and isinstance(st.value.func, ast.Name) and st.value.func.id == h.name:
+                    call = st.value
+                    arg = call.args[hp.index(cx[0])] if len(call.args) > hp.index(cx[0]) else next((k.value for k in call.keywords if k.arg == cx[0]), None)
+                    ck.shape(isinstance(arg, (ast.List, ast.Tuple)), "region helper called with a literal list of corners", f.loc(st))
+                    pts = []
+                    for e in arg.elts:
+                        if isinstance(e, ast.Name) and len(consts.get(e.id, [])) == 1:
+                            pts.append(consts[e.id][0])
+                        elif isinstance(e, ast.Tuple) and len(e.elts) == 2 and all(const_number(f.mod, x) is not None for x in e.elts):
+                            pts.append((const_number(f.mod, e.elts[0]), const_number(f.mod, e.elts[1])))
+                        else:
+                            ck.shape(False, "corner %s is a named constant point" % unparse(e), f.loc(st))
+                    fills.append((unparse(st.targets[0]), pts, st, None))
+    ck.shape(bool(fills), "finalize_DasPappu: region polygons drawn with plt.fill (literal lists, a module-level table, or a local helper over named corners)", f.loc())
     ck.ob("POLY", construct, len(fills) == 5, expected="five filled regions", found=len(fills), slot="count", where=f.loc())
     cells = _cells_from_classifier(prog)
     ck.ob("POLY", construct, sorted(cells) == [1, 2, 3, 4, 5], expected=[1, 2, 3, 4, 5], found=sorted(cells), slot="classifier-cells")
     region_of = {}
-    for name, pts, node in fills:
+    for name, pts, node, _text in fills:
         match = None
         for k, pieces in cells.items():
             inside = all(any(_in_closure(p, pc) for pc in pieces) for p in pts)
@@ -528,9 +605,21 @@ def _polygons(ck, prog):
     lg = [n for n in ast.walk(f.node) if isinstance(n, ast.Call) and unparse(n.func) == "plt.legend"]
     ok = False
     found = None
-    if len(lg) == 1 and len(lg[0].args) >= 2 and isinstance(lg[0].args[0], ast.List) and isinstance(lg[0].args[1], ast.List):
+    ck.shape(len(lg) == 1 and len(lg[0].args) >= 2, "finalize_DasPappu: one plt.legend(handles, texts, ...)", f.loc())
+    handles = texts = None
+    if isinstance(lg[0].args[0], ast.List) and isinstance(lg[0].args[1], ast.List):
         handles = [unparse(e) for e in lg[0].args[0].elts]
         texts = [e.value if isinstance(e, ast.Constant) else "" for e in lg[0].args[1].elts]
+    elif table_texts and isinstance(lg[0].args[0], ast.Name):
+        # handles accumulated row by row, texts taken from the same rows: the pairing is by construction of the table
+        appended = [n for n in ast.walk(f.node) if isinstance(n, ast.Call) and getattr(n.func, "attr", "") == "append" and unparse(n.func.value) == lg[0].args[0].id]
+        a1 = lg[0].args[1]
+        from_rows = isinstance(a1, ast.ListComp) and len(a1.generators) == 1 and isinstance(a1.elt, ast.Name) and not a1.generators[0].ifs
+        if len(appended) == 1 and from_rows:
+            handles = [x[0] for x in fills]
+            texts = [x[3] or "" for x in fills]
+    ck.shape(handles is not None, "finalize_DasPappu: legend handles and texts as two literal lists, or both taken row by row from the region table", f.loc(lg[0]))
+    if True:
         order = [region_of.get(h) for h in handles]
         key = {1: "weak", 2: "janus", 3: "strong polyampholyte", 4: "negatively", 5: "positively"}
         found = list(zip(order, [t.split(":")[0] for t in texts]))
